@@ -369,6 +369,10 @@ def run(run: Run):
     from ..runtime import get_runtime
     run.rule('C09.R5', 'constants are printed with repr() of plain data only (array-formula objects never stored; shared with C18.R3)')
     borrow(run, 'C09.R5', c18.r3, src, get_runtime(src))
+    from .common import check_mutable_defaults
+    run.rule('C09.R6', 'no mutable default value is changed in place or handed out (it would carry one translation into the next)')
+    run.guard('C09.R6', check_mutable_defaults, run, 'C09.R6', src)
+    run.floor('C09.R6', 5)
     run.floor('C09.R5', 5)
     run.floor('C09.R1', 8)
     run.floor('C09.R2', 3)
